@@ -21,7 +21,11 @@ type c07JEnt struct {
 func c07JSONText(es []c07JEnt, array bool) string {
 	var parts []string
 	for _, e := range es {
-		s := `{"method": "` + e.method + `", "uri": "` + e.uri + `", "host": "` + e.host + `", "tag": "` + e.tag + `"`
+		s := `{"method": "` + e.method + `", "uri": "` + e.uri + `", "host": "` + e.host + `"`
+		if e.tag != "" {
+			// (an entry without tag has no "tag" key at all)
+			s += `, "tag": "` + e.tag + `"`
+		}
 		if e.hdr != "" {
 			s += `, "headers": {"H": "` + e.hdr + `"}`
 		}
@@ -41,7 +45,10 @@ func c07JSON(array bool) {
 	var es []c07JEnt
 	var ents []entity
 	for i := 0; i < E; i++ {
-		e := c07JEnt{method: "GET", uri: "/" + c07Byte("u", 'a', 'z'), host: "h.example", tag: c07Byte("t", 'a', 'z')}
+		e := c07JEnt{method: "GET", uri: "/" + c07Byte("u", 'a', 'z'), host: "h.example"}
+		if vNondetBool("hasTag") {
+			e.tag = c07Byte("t", 'a', 'z')
+		}
 		if vNondetBool("hasBody") {
 			e.method = "POST"
 			e.body = c07Byte("b", 'a', 'z') + c07Byte("b", 'a', 'z')
